@@ -5,6 +5,7 @@ import PflDrv.PDA
 import PflDrv.FST
 import PflDrv.Indexed
 import PflDrv.Regex
+import PflDrv.Feature
 open Lean PflDrv
 
 def dispatch (j : Json) : R Json := do
@@ -15,6 +16,7 @@ def dispatch (j : Json) : R Json := do
   else if op.startsWith "fst." then fstHandle op j
   else if op.startsWith "ig." then igHandle op j
   else if op.startsWith "rx." then rxHandle op j
+  else if op.startsWith "fs." then fsHandle op j
   else if op == "ping" then pure (Json.str "pong")
   else throw s!"unknown op {op}"
 
